@@ -26,8 +26,15 @@ for prop, rs in by.items():
             prop + ".", "")))
     lines.append("| %s | %d | %d | %s |" % (prop, len(rs), c, "; ".join(items)))
 lines.append("")
-lines.append("Total: %d of %d broken trees caught within the quick budget "
-             "(40 s each, 16 workers)." % (caught, tot))
+renote = [r["mutant"] for r in res if r.get("note", "").startswith("re-run")]
+lines.append("Total: %d of %d broken trees caught. Last full run: three parallel shards "
+             "(tools/sensitivity.py --shard i/3 --workers 4 --budget 50, i.e. a third of the "
+             "quick tier's effort per tree)%s. Not caught: seeded/C03-f (unreachable since fix "
+             "170d1f8), seeded/C06-b and seeded/C07-h (not manifest under TCP semantics), "
+             "seeded/C18-m (needs a non-conformant server)." %
+             (caught, tot, ("; %d trees that this reduced effort missed were re-run with the "
+                            "quick tier's 16 workers and caught (%s)" %
+                            (len(renote), ", ".join(renote))) if renote else ""))
 p = os.path.join(HERE, "DESIGN.md")
 s = open(p).read()
 a = s.index("<!-- SENS:BEGIN -->") + len("<!-- SENS:BEGIN -->")
